@@ -240,6 +240,53 @@ def judgeMe (o : Me) (obs : String) : String :=
       | some e => "fail " ++ e
       | none => "ok"
 
+/-! ### threshold_adaptive -/
+
+structure Ad where
+  c : Ch
+  gauss : Bool
+  inv : Bool
+  w : Nat
+  h : Nat
+  k : Nat
+  cst : Int
+  mx : Int
+  src : List Int
+  thr : List Int
+
+/-- `ad <ch> <mean|gauss> <reg|inv> <w> <h> <k> <constant> <max> | src | claimed local-threshold surface` -/
+def parseAd (line : String) : Option Ad :=
+  match splitOn' "|" (words line) with
+  | [["ad", c, meth, dir, w, h, k, cst, mx], srcW, thrW] =>
+    match Ch.parse c, ints [w, h, k, cst, mx], ints srcW, ints thrW with
+    | some c, some [w, h, k, cst, mx], some src, some thr =>
+      if w < 1 ∨ h < 1 ∨ k < 1 ∨ src.length ≠ (w * h).toNat ∨ thr.length ≠ (w * h).toNat ∨ (c ≠ .u8 ∧ c ≠ .u16) then none
+      else some { c := c, gauss := meth == "gauss", inv := dir == "inv", w := w.toNat, h := h.toNat, k := k.toNat,
+                  cst := c.wrap cst, mx := c.wrap mx, src := src, thr := thr }
+    | _, _, _, _ => none
+  | _ => none
+
+def modelAd (o : Ad) : String := showPlanes o.w o.h [adaptivePlane o.c o.inv o.mx o.cst o.src o.thr]
+
+def judgeAd (o : Ad) (obs : String) : String :=
+  if obs.startsWith "ub:" || obs.startsWith "crash" || obs.startsWith "timeout" || obs.startsWith "assert:" then "fail adaptive-no-ub"
+  else
+  -- (b) the claimed threshold surface is the local mean / a convex combination of the zero-padded window (exact integers)
+  let badT := (List.range (o.w * o.h)).findSome? fun (i : Nat) =>
+    let win := zwindow o.w o.h o.k o.src (i % o.w) (i / o.w)
+    let t := o.thr.getD i 0
+    if (if o.gauss then gaussSurfaceOk win t else meanSurfaceOk o.k win t) then none
+    else some ("adaptive-threshold-surface-is-local-" ++ (if o.gauss then "gaussian-mean" else "mean") ++ "@" ++ toString (i % o.w) ++ "," ++ toString (i / o.w))
+  match badT with
+  | some e => "fail " ++ e
+  | none =>
+  match parseObs obs with
+  | none => "fail not-an-image:" ++ obs.take 40
+  | some (w, h, groups) =>
+    if w ≠ o.w ∨ h ≠ o.h then "fail shape" else
+    -- (a) every destination pixel is the documented comparison against (local threshold − constant)
+    judgePlanes [(o.src.zip o.thr).map fun (px, t) => adaptiveSpec o.inv px t o.mx o.cst] groups "adaptive-per-pixel-comparison-with-local-threshold"
+
 /-! ### thresholds -/
 
 def modelTh (o : Th) : String :=
@@ -258,6 +305,7 @@ def model (line : String) : String :=
   | some "ot" => match parseOt line with | some o => modelOt o | none => "bad-op"
   | some "mo" => match parseMo line with | some o => modelMo o | none => "bad-op"
   | some "me" => match parseMe line with | some o => modelMe o | none => "bad-op"
+  | some "ad" => match parseAd line with | some o => modelAd o | none => "bad-op"
   | _ => "bad-op"
 
 def judge (op obs : String) : String :=
@@ -266,6 +314,7 @@ def judge (op obs : String) : String :=
   | some "ot" => match parseOt op with | some o => judgeOt o obs | none => "fail bad-op"
   | some "mo" => match parseMo op with | some o => judgeMo o obs | none => "fail bad-op"
   | some "me" => match parseMe op with | some o => judgeMe o obs | none => "fail bad-op"
+  | some "ad" => match parseAd op with | some o => judgeAd o obs | none => "fail bad-op"
   | _ => "fail bad-op"
 
 def main (args : List String) : IO UInt32 := Driver.main' model judge args
